@@ -86,7 +86,7 @@ def inconclusive(merged, tier):
         out.append("no token was ever observed")
     if c.get("held_results_rechecked", 0) == 0:
         out.append("held results were never re-checked")
-    for k in ("cases_exhaustive", "cases_exhaustive_init", "cases_recipe", "cases_random", "cases_reuse", "cases_dressed_parameters", "cases_offgrid", "cases_large_max_length", "cases_source_fault", "source_faults_injected"):
+    for k in ("cases_exhaustive", "cases_exhaustive_init", "cases_recipe", "cases_random", "cases_reuse", "cases_dressed_parameters", "cases_object_histories", "cases_offgrid", "cases_large_max_length", "cases_source_fault", "source_faults_injected"):
         if c.get(k, 0) == 0:
             out.append(f"workload class {k} never ran")
     return out
